@@ -612,6 +612,21 @@ ItNext(it, cnt, rev, res) ==
        /\ its' = [its EXCEPT ![it].rem = @ \ TakenKeys(res.ok)]
   /\ UNCHANGED <<hist, dur, inflight, wtx, readers, rpend, eph, nextOrd, latch>>
 
+\* An untyped table handle (open_untyped_table / open_untyped_multimap_table of a read transaction): like an owned
+\* iterator it may outlive the read transaction; it answers len() and stats().  What it answers never changes (first =
+\* what it answered when it was opened), and its length is the number of entries of the table in its snapshot.
+UHold(it, src, n, kind, res) ==
+  /\ it \notin DOMAIN its /\ src # "w" /\ SrcOk(src) /\ n \in DOMAIN Tables(src) /\ Tables(src)[n].kind = kind /\ res = Ok(0)
+  /\ its' = Put(its, it, [idx |-> readers[src], t |-> n, rem |-> {}])
+  /\ UNCHANGED <<hist, dur, inflight, wtx, readers, rpend, eph, nextOrd, latch>>
+
+UStats(it, res, first) ==
+  /\ it \in DOMAIN its
+  /\ res = first /\ IsOk(res)
+  /\ LET tb == hist[its[it].idx].t[its[it].t] IN
+       res.ok[1] = IF tb.kind = "t" THEN Cardinality(DOMAIN tb.c) ELSE MLen(tb.c)
+  /\ UNCHANGED kvVars
+
 ItDrop(it) ==
   /\ it \in DOMAIN its
   /\ its' = Del(its, it)
